@@ -454,6 +454,76 @@ theorem nocase_iff_lower_eq (s t : List UInt8) :
       · exact nocaseLoop_iff lower_shape lower_order lower_cut_entry tables_size.2 A B
           (enum_ok (mem s) A ha) (enum_ok (mem t) B hb)
 
+/-! ## the wide-string scratch area: `fixW()` converts in place, `String(const Array<wchar_t>&)` -/
+
+/-- for every offset, buffer size, budget and scratch content that contains a terminator and lies inside the
+    buffer, the in-place conversion of `fixW()` never stores outside the buffer, never stores at or beyond its
+    own read cursor (no unit is destroyed before it is read), never reads outside the buffer, and returns
+    exactly what the out-of-place `utf16toUtf8` returns on those units -/
+theorem fixW_in_place_safe (off size : Nat) (units : List Int) (n : Int)
+    (h0 : hasZero units = true) (hfit : off + 4 * units.length ≤ size) :
+    ∃ out, utf16toUtf8 units n = some out ∧ fixWLoop off size units 0 0 n = .ok out ∧ out.length ≤ 3 * ilen units := by
+  obtain ⟨_, ⟨out, h1, h2⟩⟩ := utf_safe_encoders units n h0
+  refine ⟨out, h1, ?_, h2⟩
+  rw [fixWLoop_eq off size units n 0 0 (by omega) (by omega), h1]
+  rfl
+
+theorem takeWhile_len_le (o : List UInt8) : (o.takeWhile (· != 0)).length ≤ o.length := by
+  induction o with
+  | nil => simp
+  | cons b u ih => simp only [List.takeWhile_cons]; split <;> simp <;> omega
+
+/-- `dataw()` … the caller fills the scratch area with anything … `fixW()` (also through `SafeString`), from any
+    previous capacity and length: no fault, and the new content has at most 3 bytes per stored unit -/
+theorem fixW_string_safe (size0 len : Nat) (units : List Int) :
+    ∃ out, fixWString size0 len units = .ok out ∧ out.length ≤ 3 * units.length := by
+  obtain ⟨o, _, h2, h3⟩ := fixW_in_place_safe (wideOffset len) (capOf (sizeResize size0 (datawNeed len)))
+    (scratch (wideOffset len) (capOf (sizeResize size0 (datawNeed len))) units)
+    (capOf (sizeResize size0 (datawNeed len))) (scratch_hasZero _ _ _) (scratch_fits size0 len units)
+  refine ⟨o.takeWhile (· != 0), ?_, ?_⟩
+  · simp only [fixWString, h2]; rfl
+  · have a : (o.takeWhile (· != 0)).length ≤ o.length := takeWhile_len_le o
+    have b : ilen (scratch (wideOffset len) (capOf (sizeResize size0 (datawNeed len))) units) ≤ units.length := by
+      unfold scratch
+      have := ilen_append_zero (units.take ((capOf (sizeResize size0 (datawNeed len)) - wideOffset len) / 4 - 1))
+      simp only [List.length_take] at this
+      omega
+    omega
+
+/-- the two ways the driver reaches `fixW()` never fault -/
+theorem fixW_ops_safe (len n : Nat) (units : List Int) :
+    (∃ out, fixwOp len units = .ok out) ∧ (∃ out, safeOp n units = .ok out) := by
+  obtain ⟨o1, h1, _⟩ := fixW_string_safe (sizeInit len) len units
+  obtain ⟨o2, h2, _⟩ := fixW_string_safe (sizeResize 0 (3 * n)) (3 * n) units
+  exact ⟨⟨o1, h1⟩, ⟨o2, h2⟩⟩
+
+/-- `String(const Array<wchar_t>&)` on any units: inside the `cap()` bytes of `init(4·length)` -/
+theorem utf_safe_wide_array (w : List Int) :
+    ∃ out, fromWideArr w = some out ∧ out.length + 1 ≤ capAfterInit (4 * w.length) := by
+  obtain ⟨_, ⟨o, h1, l1⟩⟩ := utf_safe_encoders (w ++ [0]) (capAfterInit (4 * w.length)) (by simp [hasZero])
+  refine ⟨o, h1, ?_⟩
+  have := ilen_append_zero w
+  unfold capAfterInit
+  split <;> omega
+
+/-- … and on standard UTF-16 it yields the standard UTF-8 -/
+theorem wide_array_std (cs : List Char) (h : NoNul cs) :
+    fromWideArr ((Std.utf16 cs).map Int.ofNat) = some (Std.utf8 cs) := by
+  unfold fromWideArr
+  apply utf16toUtf8_std cs h []
+  right
+  have := utf16_length_ge cs
+  simp only [List.length_map, capAfterInit]
+  split <;> omega
+
+/-- in-place conversion of standard UTF-16 stored in the scratch area gives the standard UTF-8 -/
+theorem fixW_std (cs : List Char) (h : NoNul cs) (off size : Nat) (junk : List Int) (n : Int)
+    (hn : n ≤ 0 ∨ (cs.length : Int) < n)
+    (hfit : off + 4 * ((Std.utf16 cs).map Int.ofNat ++ 0 :: junk).length ≤ size) :
+    fixWLoop off size ((Std.utf16 cs).map Int.ofNat ++ 0 :: junk) 0 0 n = .ok (Std.utf8 cs) := by
+  rw [fixWLoop_eq off size _ n 0 0 (by omega) (by omega), utf16toUtf8_std cs h junk n hn]
+  rfl
+
 /-! ## the unit budget `n` of the free converters: exactly the first `n` characters -/
 
 theorem budget_utf8toUtf32 (cs : List Char) (h : NoNul cs) (junk : List UInt8) (n : Int) (hn : 0 < n) :
@@ -520,6 +590,15 @@ example : hasNul (mem [0x41, 0xE2, 0x82]) = true := by decide
 -- "ÉCOLE" / "école"
 example : equalsNocase [0xC3, 0x89, 0x43] [0xC3, 0xA9, 0x63] = some true := by decide +kernel
 example : toLowerCase [0xC3, 0x89, 0x43] = some [0xC3, 0xA9, 0x63] := by decide +kernel
+-- the scratch area filled to the last unit with 3-byte characters: the write cursor stays below the read cursor
+example : (match fixwOp 1 [8364, 8364, 8364] with | .ok o => o == [0xE2, 0x82, 0xAC, 0xE2, 0x82, 0xAC] | .error _ => false) = true := by
+  decide +kernel
+-- the faults are representable: a write cursor that starts ahead of the read cursor destroys the next unit;
+-- a scratch area without terminator is read past the buffer
+example : (match fixWLoop 0 64 [0x20AC, 0x20AC, 0] 0 5 64 with | .error f => f == Fault.overtake | .ok _ => false) = true := by
+  decide +kernel
+example : (match fixWLoop 4 12 [0x41, 0x42] 0 0 12 with | .error f => f == Fault.oobRead | .ok _ => false) = true := by
+  decide +kernel
 -- not part of the property, recorded: the two-byte table truncates 3-byte images (U+023F ȿ ↦ U+2C7E = E2 B1 BE)
 example : toUpperCase [0xC8, 0xBF] = some [0xE2, 0xB1] := by decide +kernel
 
